@@ -40,6 +40,10 @@ func (bucket *Bucket) StartDCPFeed(
 		return collection.StartDCPFeed(ctx, args, callback, dbStats)
 	}
 
+	if _, closed := bucket.db().(closedDB); closed {
+		return ErrBucketClosed // (a cached Collection would otherwise be found, and its feed refused below)
+	}
+
 	// Validate requested collections exist before starting feeds
 	requestedCollections := make([]*Collection, 0)
 	for scopeName, collections := range args.Scopes {
@@ -56,6 +60,7 @@ func (bucket *Bucket) StartDCPFeed(
 
 	doneChan := args.DoneChan
 	doneChans := map[*Collection]chan struct{}{}
+	var startErr error
 	for _, collection := range requestedCollections {
 		// Not bothering to remove scopes from args for the single collection feeds
 		// here because it's ignored by Collection.StartDCPFeed
@@ -70,8 +75,13 @@ func (bucket *Bucket) StartDCPFeed(
 		argsCopy := args
 		argsCopy.DoneChan = doneChans[collection]
 
-		// Ignoring error is safe because Collection doesn't have error scenarios for StartDCPFeed
-		_ = collection.StartDCPFeed(ctx, argsCopy, collectionAwareCallback, dbStats)
+		if err := collection.StartDCPFeed(ctx, argsCopy, collectionAwareCallback, dbStats); err != nil {
+			// This collection's feed did not start, so nothing else will ever close its done channel:
+			close(doneChans[collection])
+			if startErr == nil {
+				startErr = err
+			}
+		}
 	}
 
 	// coalesce doneChans
@@ -84,7 +94,7 @@ func (bucket *Bucket) StartDCPFeed(
 		}
 	}()
 
-	return nil
+	return startErr
 }
 
 //////// COLLECTION API:
